@@ -11,9 +11,9 @@ import WcModel.Generated
     `callback` — the `norm(m)` closure
     `go`       — the `sub` loop (fuel = remaining length; every match consumes ≥ 1 char)
 
-  Parameters (not modelled, supplied from outside): `lookup` = `unicodedata.lookup`
-  (`none` = `KeyError`), `dec` = the value of a non-ASCII Unicode decimal digit (`\d` in a str
-  pattern matches category Nd and `int(_, 16)` accepts those digits; `none` otherwise).
+  Parameter (not modelled, supplied from outside): `lookup` = `unicodedata.lookup`
+  (`none` = `KeyError`).  Hex digits are ASCII (`[0-9a-fA-F]`; in RE_BNORM `\d` of a bytes
+  regex is ASCII as well).
 -/
 namespace WcModel.Norm
 
@@ -30,7 +30,6 @@ structure Cfg where
   normalize : Bool
   raw : Bool
   lookup : List Char → Option Char := fun _ => none
-  dec : Char → Option Nat := fun _ => none
 
 def octVal? (c : Char) : Option Nat :=
   if '0' ≤ c ∧ c ≤ '7' then some (c.toNat - '0'.toNat) else none
@@ -41,15 +40,8 @@ def asciiHex? (c : Char) : Option Nat :=
   else if 'A' ≤ c ∧ c ≤ 'F' then some (c.toNat - 'A'.toNat + 10)
   else none
 
-/-- `[\da-fA-F]` and the digit value `int(_, 16)` gives it: for `bytes` ASCII only, for `str`
-    additionally every Unicode decimal digit. -/
-def hexVal? (cfg : Cfg) (c : Char) : Option Nat :=
-  match asciiHex? c with
-  | some v => some v
-  | none => if cfg.isBytes then none else
-    match cfg.dec c with
-    | some d => if d < 10 then some d else none
-    | none => none
+/-- `[0-9a-fA-F]` (RE_NORM) / `[\da-fA-F]` of a bytes regex (RE_BNORM) and the digit value -/
+def hexVal? (_cfg : Cfg) (c : Char) : Option Nat := asciiHex? c
 
 /-- exactly `n` hex digits: (value, the digits, rest) -/
 def takeHex (cfg : Cfg) : Nat → Nat → List Char → Option (Nat × List Char × List Char)
@@ -205,7 +197,7 @@ theorem simple_table_ok :
     Gen.backSlashTranslation_b = Gen.backSlashTranslation := by decide +kernel
 
 theorem re_norm_pinned :
-    Gen.rRE_NORM = "(?x)\n    (/|\\\\/)|\n    (\\\\[abfnrtv\\\\])|\n    (\\\\(?:U[\\da-fA-F]{8}|u[\\da-fA-F]{4}|x[\\da-fA-F]{2}|([0-7]{1,3})))|\n    (\\\\N\\{[^}]*?\\})|\n    (\\\\[^NUux]) |\n    (\\\\[NUux])\n    " := by decide +kernel
+    Gen.rRE_NORM = "(?x)\n    (/|\\\\/)|\n    (\\\\[abfnrtv\\\\])|\n    (\\\\(?:U[0-9a-fA-F]{8}|u[0-9a-fA-F]{4}|x[0-9a-fA-F]{2}|([0-7]{1,3})))|\n    (\\\\N\\{[^}]*?\\})|\n    (\\\\[^NUux]) |\n    (\\\\[NUux])\n    " := by decide +kernel
 
 theorem re_bnorm_pinned :
     Gen.rRE_BNORM = "(?x)\n    (/|\\\\/)|\n    (\\\\[abfnrtv\\\\])|\n    (\\\\(?:x[\\da-fA-F]{2}|([0-7]{1,3})))|\n    (\\\\[^x]) |\n    (\\\\[x])\n    " := by decide +kernel
